@@ -761,7 +761,7 @@ void sender_task_promise_unhandled_done(struct sender_task_promise* self)
 __CPROVER_requires(self == &STP && CS_ZERO && CS2_ZERO && IMP_(WithAsyncStackSupport, STP_DONE_REQ))
 __CPROVER_assigns(AW, F0, F1.stackRoot, R0.topFrame, R1.topFrame, G)
 __CPROVER_ensures(G.completions == 1 && G.last_sig == SIG_done && CS_UNTOUCHED_IF_DEAD && CUR.value == __CPROVER_old(CUR.value))
-__CPROVER_ensures(WithAsyncStackSupport ==> (F0.stackRoot == NULL && F1.stackRoot == NULL && TOP_OF(G.cs_root) == NULL)) /* both frames detached, the root without top frame: what _rec::set_done's root scope needs to end */
+__CPROVER_ensures(WithAsyncStackSupport ==> (F0.stackRoot == NULL && F1.stackRoot == NULL && TOP_OF(CUR.value) == NULL)) /* both frames detached, the root without top frame: what _rec::set_done's root scope needs to end */
 __CPROVER_ensures(G.top_stores == __CPROVER_old(G.top_stores) + (WithAsyncStackSupport ? 2 : 0))
 /*@BODY stp_done*/
 /* start(): the first resume of the coroutine, on a new root */
@@ -1098,8 +1098,18 @@ void h_rcvw_set_next(void) { cs2_init(); fresh_scoped(); rcvr_wrapper_set_next(&
 void h_stp_ctor(void) { cs2_init(); F0.parentFrame = PARENTFRAME_INIT; F0.stackRoot = STACKROOT_INIT; sender_task_promise_ctor(&STP, VF_nondet_uptr()); VF_CANARY("after sender_task promise_type()"); }
 void h_stp_await_suspend(void) { cs2_init(); G.cs_root = F0.stackRoot; sender_task_awaiter_await_suspend(&STA, 0); VF_CANARY("after sender_task awaiter::await_suspend");
   if (WithAsyncStackSupport) { VF_CANARY("yield: frame deactivated first"); } else { VF_CANARY("yield without async stack support"); } }
-void h_stp_done(void) { cs2_init(); G.cs_root = CUR.value; sender_task_promise_unhandled_done(&STP); VF_CANARY("after the sender_task's unhandled_done handler");
-  if (WithAsyncStackSupport) { VF_CANARY("done: dummy frame popped, own frame deactivated"); if (G.cs_root == &R0) { VF_CANARY("done handler on an enclosing root"); } } else { VF_CANARY("done without async stack support"); } }
+/* the hand-over state of _rec::set_done, built from the concrete objects: the dummy frame F1 is the top frame of the current root r, its parent F0 is detached.
+ * One harness per configuration (root / template parameter fixed): with a symbolic choice the replaced popAsyncStackFrameFromCaller contract made the path infeasible (canary) */
+static void stp_done_case(struct AsyncStackRoot* r, struct AsyncStackRoot* o, _Bool with) {
+  cs2_init(); WithAsyncStackSupport = with;
+  if (with) { CUR.value = r; r->topFrame = &F1; F1.stackRoot = r; F1.parentFrame = &F0; F0.stackRoot = NULL; o->topFrame = NULL; }
+  G.cs_root = CUR.value;
+  sender_task_promise_unhandled_done(&STP);
+  VF_CANARY("after the sender_task's unhandled_done handler");
+}
+void h_stp_done_r0(void) { stp_done_case(&R0, &R1, 1); VF_CANARY("done handler on an enclosing root: dummy frame popped, own frame deactivated"); }
+void h_stp_done_r1(void) { stp_done_case(&R1, &R0, 1); VF_CANARY("done handler on the scoped root: dummy frame popped, own frame deactivated"); }
+void h_stp_done_off(void) { stp_done_case(&R0, &R1, 0); VF_CANARY("done without async stack support"); }
 void h_st_start(void) { cs2_init(); fresh_scoped(); sender_task_start(&ST); VF_CANARY("after sender_task::start");
   if (G.cs_dead) { VF_CANARY("sender_task completed inline and may be gone"); } else { VF_CANARY("sender_task suspended"); } if (G.arg_parent) { VF_CANARY("receiver with a frame: linked as parent"); } }
 void h_cp_final_suspend(void) { cs2_init(); CP.parentFrame_ = VF_nondet_bool() ? &F0 : NULL; G.cs_root = F1.stackRoot; int r = cleanup_final_await_suspend_impl(0); VF_CANARY("after final_awaitable::await_suspend_impl");
@@ -1112,7 +1122,7 @@ void h_cp_awaiter_suspend(void) { cs2_init(); int k = VF_nondet_int(); G.arg_fra
  * EV_resume_continuation(done) asserts) satisfies the handler's precondition, and the handler's postcondition is what the
  * stub assumes when it returns (dummy frame popped, own frame deactivated, root without top frame) */
 void lemma_done_handoff(void) {
-  cs2_init(); fresh_scoped(); WithAsyncStackSupport = 1;
+  cs2_init(); WithAsyncStackSupport = 1;
   __CPROVER_assume(WF && CS_ZERO && CS2_ZERO);
   /* the facts asserted by EV_resume_continuation(done) */
   __CPROVER_assume(CUR.value == &R1 && ACTIVE_ON(F1, &R1) && F1.parentFrame == &F0 && F0.stackRoot == NULL);
@@ -1121,3 +1131,6 @@ void lemma_done_handoff(void) {
   VF_P(F1.stackRoot == NULL && R1.topFrame == NULL && F0.stackRoot == NULL, "lemma: the done handler leaves exactly the state the _rec::set_done stub assumes (the root scope can end, the dummy frame can go)");
   VF_CANARY("lemma_done_handoff reachable");
 }
+
+
+
